@@ -141,6 +141,117 @@ Definition int_to_f32 (z : Z) : spec_float := round_to 53 1024 (binary_normalize
 Definition float_fits (bits : N) (f : spec_float) : bool :=
   if (bits =? 32)%N then sf_eqb_syn (f32_of f) f else true.
 
+(* ------------------------------------------------------------------ typing *)
+
+Fixpoint find_variant (n : str) (vs : list (str * (vkind * ty))) : option (vkind * ty) :=
+  match vs with
+  | [] => None
+  | vr :: t => if str_eqb n (fst vr) then Some (snd vr) else find_variant n t
+  end.
+
+(* v is a value of the Rust type described by t *)
+Inductive has_type : sval -> ty -> Prop :=
+| HT_unit : has_type SUnit TUnit
+| HT_unit_struct : has_type SUnitStruct TUnitStruct
+| HT_bool b : has_type (SBool b) TBool
+| HT_int sg bits z : bits_ok bits = true -> int_fits sg bits z = true -> has_type (SInt sg bits z) (TInt sg bits)
+| HT_float bits f : float_fits bits f = true -> has_type (SFloat bits f) (TFloat bits)
+| HT_char c : has_type (SChar c) TChar
+| HT_str s : has_type (SStr s) TString
+| HT_none t : has_type SNone (TOption t)
+| HT_some v t : has_type v t -> has_type (SSome v) (TOption t)
+| HT_newtype v t : has_type v t -> has_type (SNewtype v) (TNewtype t)
+| HT_seq l t : Forall (fun x => has_type x t) l -> has_type (SSeq l) (TSeq t)
+| HT_tuple l ts : Forall2 has_type l ts -> has_type (STuple l) (TTuple ts)
+| HT_map m kt vt :
+    Forall (fun e : sval * sval => has_type (fst e) kt /\ has_type (snd e) vt) m ->
+    NoDup (map fst m) ->                      (* a Rust map holds a key once *)
+    has_type (SMap m) (TMap kt vt)
+| HT_struct xs fs :
+    Forall2 (fun (x : str * sval) (f : str * ty) => fst x = fst f /\ has_type (snd x) (snd f)) xs fs ->
+    has_type (SStruct xs) (TStruct fs)
+| HT_variant n k p pt vs :
+    find_variant n vs = Some (k, pt) -> has_type p pt -> (k = VKUnit -> p = SUnit) ->
+    has_type (SVariant n k p) (TEnum vs).
+
+(* a predicate that holds at every node of a type *)
+Section TyAll.
+  Variable p : ty -> bool.
+  Fixpoint ty_all (t : ty) : bool :=
+    p t &&
+    match t with
+    | TOption t' | TNewtype t' | TSeq t' => ty_all t'
+    | TTuple ts => forallb ty_all ts
+    | TMap k v => ty_all k && ty_all v
+    | TStruct fs => forallb (fun f : str * ty => ty_all (snd f)) fs
+    | TEnum vs => forallb (fun vr : str * (vkind * ty) => ty_all (snd (snd vr))) vs
+    | _ => true
+    end.
+End TyAll.
+
+(* types whose values are written as `none`: (), unit structs, options, newtypes of those *)
+Fixpoint none_like (t : ty) : bool :=
+  match t with
+  | TUnit | TUnitStruct | TOption _ => true
+  | TNewtype t' => none_like t'
+  | _ => false
+  end.
+(* the property's exclusion "an option directly inside an option", in full: under an Option there
+   is no type that is itself written as `none` (Some(None), Some(()) and None are all `none`) *)
+Definition no_none_like_under_option : ty -> bool :=
+  ty_all (fun t => match t with TOption t' => negb (none_like t') | _ => true end).
+
+Fixpoint str_nodupb (l : list str) : bool :=
+  match l with
+  | [] => true
+  | x :: t => negb (existsb (str_eqb x) t) && str_nodupb t
+  end.
+Definition shape_ok (k : vkind) (pt : ty) : bool :=
+  match k, pt with
+  | VKUnit, TUnit => true
+  | VKNewtype, _ => true
+  | VKTuple, TTuple _ => true
+  | VKStruct, TStruct _ => true
+  | _, _ => false
+  end.
+(* the description is one of a Rust type: field names distinct, variant payloads of their shape *)
+Definition names_ok : ty -> bool :=
+  ty_all (fun t => match t with
+                   | TStruct fs => str_nodupb (map fst fs)
+                   | TEnum vs => forallb (fun vr : str * (vkind * ty) => shape_ok (fst (snd vr)) (snd (snd vr))) vs
+                   | _ => true
+                   end).
+
+(* key types all of whose values MapKeySerializer accepts *)
+Fixpoint key_ty_ok (t : ty) : bool :=
+  match t with
+  | TBool | TInt _ _ | TChar | TString => true
+  | TNewtype t' => key_ty_ok t'
+  | TEnum vs => forallb (fun vr : str * (vkind * ty) => match fst (snd vr) with VKUnit => true | _ => false end) vs
+  | _ => false
+  end.
+Definition keys_ok : ty -> bool :=
+  ty_all (fun t => match t with TMap k _ => key_ty_ok k | _ => true end).
+
+(* key types none of whose values it accepts *)
+Fixpoint key_ty_bad (t : ty) : bool :=
+  match t with
+  | TUnit | TUnitStruct | TFloat _ | TSeq _ | TTuple _ | TMap _ _ | TStruct _ => true
+  | TNewtype t' | TOption t' => key_ty_bad t'
+  | TEnum vs => forallb (fun vr : str * (vkind * ty) => match fst (snd vr) with VKUnit => false | _ => true end) vs
+  | _ => false
+  end.
+
+(* what the documentation calls a key: bool, integer, char, string, unit variant (through Some
+   and newtype wrappers) — written independently of ser_key *)
+Fixpoint admissible_key (k : sval) : bool :=
+  match k with
+  | SBool _ | SInt _ _ _ | SChar _ | SStr _ => true
+  | SVariant _ VKUnit _ => true
+  | SSome x | SNewtype x => admissible_key x
+  | _ => false
+  end.
+
 (* ------------------------------------------------------------------ serialisation *)
 
 (* MapKeySerializer (ser.rs 271-467): bool, every integer width, char, str, unit variants are
